@@ -27,6 +27,7 @@ COMMITTERS = set()
 
 
 EXPLANATION += ' (R5) no storage-layer result is discarded anywhere in the crate (one tolerated site, named, doubles as the positive example).'
+EXPLANATION += " Round 9: (R4) the destructor of Store evaluated on every state of the shared transaction: an open write transaction is committed before the store goes away; (R3) the age check only has to relate elapsed() with MAX_COMMIT_DELAY - the outcome per age is R4's."
 
 
 class Effects:
